@@ -5,6 +5,7 @@ go 1.23
 toolchain go1.23.5
 
 require (
+	github.com/Chronokeeper/anyxml v0.0.0-20160530174208-54457d8e98c6
 	github.com/olive-io/bpmn/schema v1.8.0
 	github.com/olive-io/bpmn/v2 v2.0.0
 	pgregory.net/rapid v1.3.0
@@ -12,7 +13,6 @@ require (
 
 require (
 	github.com/ChrisTrenkamp/xsel v0.9.16 // indirect
-	github.com/Chronokeeper/anyxml v0.0.0-20160530174208-54457d8e98c6 // indirect
 	github.com/bits-and-blooms/bitset v1.24.4 // indirect
 	github.com/bytedance/gopkg v0.1.3 // indirect
 	github.com/bytedance/sonic v1.15.0 // indirect
